@@ -1,7 +1,9 @@
 //! `Presented`: a value whose `Serialize` impl calls exactly the serde method named in the scenario.
 //!
-//! Exchange format: {"p": <call>, ...}; integers carry `v` as 16-bit limbs, least significant first
-//! (4 limbs for widths <= 64, 8 limbs for 128-bit), texts are arrays of UTF-8 byte codes.
+//! Exchange format (the presentations of SerdeModel.tla): {"p": <call>, ...}; integers carry `v` as 16-bit limbs,
+//! least significant first (4 limbs for widths <= 64, 8 limbs for 128-bit), texts are arrays of UTF-8 byte codes;
+//! payload fields: `i` (bool / char code point), `v` (numbers, floats as LE bytes, str, bytes), `x` (one nested
+//! presentation), `es` (list), `kv` (list of [key, value]), `fs` (list of [field name, value]).
 
 use crate::schema_io::{bytes_of, text_of};
 use serde::ser::{
@@ -88,12 +90,12 @@ fn name_of(j: &J, key: &str) -> Result<&'static str, String> {
 }
 
 fn list_of(j: &J) -> Result<Vec<P>, String> {
-	j["v"].as_array().ok_or("v must be an array")?.iter().map(P::from_json).collect()
+	j["es"].as_array().ok_or("es must be an array")?.iter().map(P::from_json).collect()
 }
 
 fn fields_of(j: &J) -> Result<Vec<(&'static str, P)>, String> {
 	let mut out = Vec::new();
-	for f in j["v"].as_array().ok_or("struct v must be an array")? {
+	for f in j["fs"].as_array().ok_or("struct fs must be an array")? {
 		let pair = f.as_array().ok_or("struct field must be a pair")?;
 		out.push((intern(&text_of(&pair[0])?), P::from_json(&pair[1])?));
 	}
@@ -108,8 +110,8 @@ impl P {
 		Ok(match p {
 			"unit" => P::Unit,
 			"none" => P::None,
-			"some" => P::Some(Box::new(P::from_json(&j["v"])?)),
-			"bool" => P::Bool(j["v"].as_u64().map(|x| x != 0).or(j["v"].as_bool()).ok_or("bool v")?),
+			"some" => P::Some(Box::new(P::from_json(&j["x"])?)),
+			"bool" => P::Bool(j["i"].as_u64().map(|x| x != 0).or(j["i"].as_bool()).ok_or("bool i")?),
 			"i8" => P::I8(int()? as i8),
 			"i16" => P::I16(int()? as i16),
 			"i32" => P::I32(int()? as i32),
@@ -128,14 +130,14 @@ impl P {
 				let b = bytes_of(&j["v"])?;
 				P::F64(f64::from_le_bytes(b.as_slice().try_into().map_err(|_| "f64 needs 8 bytes")?))
 			}
-			"char" => P::Char(char::from_u32(j["v"].as_u64().ok_or("char v")? as u32).ok_or("bad char")?),
+			"char" => P::Char(char::from_u32(j["i"].as_u64().ok_or("char i")? as u32).ok_or("bad char")?),
 			"str" => P::Str(text_of(&j["v"])?),
 			"bytes" => P::Bytes(bytes_of(&j["v"])?),
 			"unit_struct" => P::UnitStruct(name_of(j, "name")?),
 			"unit_variant" => P::UnitVariant(name_of(j, "name")?, idx(), name_of(j, "variant")?),
-			"newtype_struct" => P::NewtypeStruct(name_of(j, "name")?, Box::new(P::from_json(&j["v"])?)),
+			"newtype_struct" => P::NewtypeStruct(name_of(j, "name")?, Box::new(P::from_json(&j["x"])?)),
 			"newtype_variant" => {
-				P::NewtypeVariant(name_of(j, "name")?, idx(), name_of(j, "variant")?, Box::new(P::from_json(&j["v"])?))
+				P::NewtypeVariant(name_of(j, "name")?, idx(), name_of(j, "variant")?, Box::new(P::from_json(&j["x"])?))
 			}
 			"seq" => P::Seq(j["len"].as_i64().filter(|&l| l >= 0).map(|l| l as usize), list_of(j)?),
 			"tuple" => P::Tuple(list_of(j)?),
@@ -143,7 +145,7 @@ impl P {
 			"tuple_variant" => P::TupleVariant(name_of(j, "name")?, idx(), name_of(j, "variant")?, list_of(j)?),
 			"map" => {
 				let mut entries = Vec::new();
-				for e in j["v"].as_array().ok_or("map v")? {
+				for e in j["kv"].as_array().ok_or("map kv")? {
 					let pair = e.as_array().ok_or("map entry must be a pair")?;
 					entries.push((P::from_json(&pair[0])?, P::from_json(&pair[1])?));
 				}
